@@ -6,7 +6,7 @@
 From Coq Require Import List Bool Arith NArith.
 From Coq.Strings Require Import Byte.
 From GI Require Import Lib.Bytes Gen.TsRunConsts Txtar.Txtar
-  TsRun.TsFs TsRun.TsState TsRun.TsCmds TsRun.TsRun TsRun.TsSpec TsRun.TsRunFacts.
+  TsRun.TsFs TsRun.TsRegex TsRun.TsRegexFacts TsRun.TsState TsRun.TsCmds TsRun.TsRun TsRun.TsSpec TsRun.TsRunFacts.
 Import ListNotations.
 
 (* one line: the interpreter returns normally exactly when the declarative demand is met *)
@@ -142,3 +142,55 @@ Theorem C01_cli_exit_iff : forall cfg batch,
   forall j, In j batch -> forall n, r_verdict (run_file cfg (j_work j) (j_env j) (j_file j)) <> Fail n.
 Proof. exact cli_exit_iff. Qed.
 Print Assumptions C01_cli_exit_iff.
+
+(* Params.RequireExplicitExec *)
+Theorem C01_explicit_exec_required : forall cfg st line neg name args,
+  c_explicit_exec cfg = true -> In name (c_main_cmds cfg) ->
+  reaches cfg st line neg (CMain name) args ->
+  run_line cfg st line = Failed st.
+Proof. exact explicit_exec_required. Qed.
+Print Assumptions C01_explicit_exec_required.
+
+Theorem C01_explicit_exec_not_required : forall cfg name neg args st,
+  c_explicit_exec cfg = false ->
+  cmd_sem cfg (CMain name) neg args st = cmd_exec cfg neg (name :: args) st.
+Proof. exact explicit_exec_not_required. Qed.
+Print Assumptions C01_explicit_exec_not_required.
+
+(* Params.RequireUniqueNames *)
+Theorem C01_unique_names_step : forall st name data r t1,
+  let p := mkabs st (expand [] name) in
+  mkdir_all (s_fs st) (dir p) 511 = (t1, true) ->
+  lstat t1 p <> None ->
+  snd (unpack true ((name, data) :: r) st) = false.
+Proof. exact unique_names_step. Qed.
+Print Assumptions C01_unique_names_step.
+
+Theorem C01_setup_failure_is_fail_0 : forall cfg work env a st,
+  setup cfg work env a = (st, false) ->
+  r_verdict (run_archive cfg work env a) = Fail 0 /\ r_fail_lines (run_archive cfg work env a) = [0].
+Proof. exact setup_failure_is_fail_0. Qed.
+Print Assumptions C01_setup_failure_is_fail_0.
+
+(* the regular-expression fragment of stdout / stderr / grep: the matcher against the
+   declarative reading [ms] (TsRun/TsRegex.v, TsRun/TsRegexFacts.v) *)
+Theorem C01_regex_matcher_sound : forall ps prev rest n,
+  m_seq ps prev rest = Some n ->
+  n <= length rest /\ ms ps prev (firstn n rest) (skipn n rest).
+Proof. exact m_seq_sound. Qed.
+Print Assumptions C01_regex_matcher_sound.
+
+Theorem C01_regex_matcher_complete : forall ps prev w after,
+  ms ps prev w after -> exists n, m_seq ps prev (w ++ after) = Some n.
+Proof. exact m_seq_complete. Qed.
+Print Assumptions C01_regex_matcher_complete.
+
+Theorem C01_regex_has_match_iff : forall re text,
+  re_has_match re text = true <-> re_matches_in re text.
+Proof. exact re_has_match_iff. Qed.
+Print Assumptions C01_regex_has_match_iff.
+
+Theorem C01_regex_count_zero_iff : forall re text,
+  re_count re text = 0%N <-> re_has_match re text = false.
+Proof. exact re_count_zero_iff. Qed.
+Print Assumptions C01_regex_count_zero_iff.
